@@ -155,9 +155,21 @@ if __name__ == "__main__":
     elif cmd == "run":
         rerun(sys.argv[2], sys.argv[3:] or None)
     elif cmd == "all":
+        # the owner's quick check, or -- for the few changes whose first
+        # visible effect lies in a sibling property's territory (meta.json
+        # "history": "not caught by the owning check") -- the recorded
+        # sibling checks
         for sid in sorted(os.listdir(SEEDED)):
-            if os.path.exists(os.path.join(SEEDED, sid, "meta.json")):
-                rerun(sid)
+            mp = os.path.join(SEEDED, sid, "meta.json")
+            if os.path.exists(mp):
+                with open(mp) as f:
+                    m = json.load(f)
+                if str(m.get("history", "")).startswith("not caught by the "
+                                                        "owning check"):
+                    rerun(sid, [p for p in m.get("caught_by", [])
+                                if p != m["property"]] or None)
+                else:
+                    rerun(sid)
     elif cmd == "sweep":
         from concurrent.futures import ThreadPoolExecutor
         seeds = [int(x) for x in (sys.argv[2] if len(sys.argv) > 2
